@@ -476,3 +476,58 @@ func (s *SUT) TxnSQL(sql string) (res ExecResult) {
 	}
 	return
 }
+
+// PlanInsert stores rows through the plan-level API (InsertPlanNode), for values that the SQL
+// literal forms cannot express (NULL, float specials, boundary integers).
+func (t *STxn) PlanInsert(st *Stmt, mt *MTable) (res ExecResult) {
+	s := t.s
+	if s.Dead {
+		res.Err = errDead
+		return
+	}
+	defer s.catch(&res.Panic)
+	tm := s.Cat.GetTableByName(st.Table)
+	if tm == nil {
+		res.Err = fmt.Errorf("no table %s", st.Table)
+		return
+	}
+	var raw [][]types.Value
+	for _, r := range st.Rows {
+		vals := make([]types.Value, len(mt.Cols))
+		for i := range mt.Cols {
+			vals[i] = typedNull(mt.Cols[i].Type)
+		}
+		for i, cn := range st.Cols {
+			ci := mt.ColIdx(cn)
+			if r[i] == nil {
+				vals[ci] = typedNull(mt.Cols[ci].Type)
+			} else {
+				vals[ci] = types.NewValue(r[i])
+			}
+		}
+		raw = append(raw, vals)
+	}
+	plan := plans.NewInsertPlanNode(raw, tm.OID())
+	res.Plan = "Insert(plan-level)"
+	ctx := executors.NewExecutorContext(s.Cat, s.Shi.GetBufferPoolManager(), t.Txn)
+	s.Eng.Execute(plan, ctx)
+	if t.Txn.GetState() == access.ABORTED {
+		res.Aborted = true
+	}
+	return
+}
+
+func typedNull(t ColType) types.Value {
+	var v types.Value
+	switch t {
+	case TInt:
+		v = types.NewInteger(0)
+	case TFloat:
+		v = types.NewFloat(0)
+	case TVarchar:
+		v = types.NewVarchar("")
+	case TBool:
+		v = types.NewBoolean(false)
+	}
+	return *v.SetNull()
+}
